@@ -208,34 +208,6 @@ pub fn c05_charstr_parse_every_length() {
     }
 }
 
-/// The record-data enums dispatch every method to the variant: `ZoneRecordData` and `AllRecordData` holding an MX
-/// compose, compose canonically and report their length exactly like the MX itself (rdata/macros.rs: one match arm
-/// per method and variant, generated by a macro -- a wrong method name in one arm type-checks).
-/// Bounded: one variant (MX), fixed two-label exchange with upper-case letters, preference symbolic.
-#[kani::proof]
-#[kani::unwind(20)]
-pub fn c05_enum_dispatch_mx_bounded() {
-    use domain::rdata::{AllRecordData, ZoneRecordData};
-    let name = Name::from_slice(b"\x01A\x02bC\0").unwrap();
-    let mx = Mx::new(kani::any(), name);
-    let (mut plain, mut canon) = (Array::<16>::new(), Array::<16>::new());
-    mx.compose_rdata(&mut plain).unwrap();
-    mx.compose_canonical_rdata(&mut canon).unwrap();
-    kani::cover!(plain.as_ref() != canon.as_ref());
-
-    let z: ZoneRecordData<&[u8], &Name<[u8]>> = ZoneRecordData::Mx(mx.clone());
-    let (mut zp, mut zc) = (Array::<16>::new(), Array::<16>::new());
-    z.compose_rdata(&mut zp).unwrap();
-    z.compose_canonical_rdata(&mut zc).unwrap();
-    assert!(zp.as_ref() == plain.as_ref());
-    assert!(zc.as_ref() == canon.as_ref());
-    assert!(z.rdlen(false) == mx.rdlen(false));
-
-    let a: AllRecordData<&[u8], &Name<[u8]>> = AllRecordData::Mx(mx.clone());
-    let (mut ap, mut ac) = (Array::<16>::new(), Array::<16>::new());
-    a.compose_rdata(&mut ap).unwrap();
-    a.compose_canonical_rdata(&mut ac).unwrap();
-    assert!(ap.as_ref() == plain.as_ref());
-    assert!(ac.as_ref() == canon.as_ref());
-    assert!(a.rdlen(false) == mx.rdlen(false));
-}
+// A harness composing an MX through `ZoneRecordData` (rdata/macros.rs dispatch) did not finish in CBMC within
+// 18 min even for one variant and one method (the enum pulls in the code of every record type): the
+// macro-generated dispatch is not under contract.
